@@ -333,8 +333,10 @@ class Gen:
                     if k != nv:
                         env[k] = ty.Union(e1[k], e2[k])
             return lines + ([f"use({nv})"] if nv else [])
-        if choice < 0.66:
+        if choice < 0.62:
             return self.loop(env, depth)
+        if choice < 0.66:
+            return self.composite(env, depth, in_loop)
         if choice < 0.74:
             return self.try_(env, depth, in_loop)
         if choice < 0.82:
@@ -453,9 +455,13 @@ class Gen:
                 pats.append((ty.lit_source(m.extra.v), m, "pattern:literal"))
             elif m.kind == "NoneT":
                 pats.append(("None", m, "pattern:none"))
-            elif m.kind == "Tuple" and m.args:
+            elif m.kind == "Tuple" and m.args and r.random() < 0.5:
                 names = [self.fresh("p") for _ in m.args]
                 pats.append(("(" + ", ".join(names) + ("," if len(names) == 1 else "") + ")", m, "pattern:sequence"))
+            elif m.kind == "Tuple" and m.args:
+                k = r.randrange(0, len(m.args) + 1)  # k fixed sub-patterns, then a star: binds [] when k == len
+                names = [self.fresh("p") for _ in range(k)]
+                pats.append(("[" + ", ".join(names + ["*" + self.fresh("p")]) + "]", m, "pattern:sequence-star-on-fixed-tuple"))
             elif m.kind in ("List", "VarTuple", "Seq"):
                 a, rest = self.fresh("p"), self.fresh("p")
                 pats.append((f"[{a}, *{rest}]", m, "pattern:sequence-star"))
@@ -474,10 +480,14 @@ class Gen:
         for pat, m, prod in pats[:3]:
             e = dict(env)
             guard = ""
-            if r.random() < 0.15:
+            rg = r.random()
+            if rg < 0.12:
                 g = self.cond(env)
                 guard = f" if {g[0]}"
                 self.note("pattern:guard")
+            elif rg < 0.22:
+                guard = " if flip()"   # a guard the checker cannot evaluate
+                self.note("pattern:opaque-guard")
             self.note(prod)
             lines += [f"    case {pat}{guard}:"] + ["        " + l for l in [f"use({v})"] + self.block(e, depth + 2, in_loop, n=1)]
         if r.random() < 0.6:
@@ -486,6 +496,42 @@ class Gen:
             self.note("pattern:capture")
         self.note("stmt:match")
         return lines + [f"use({v})"]
+
+    def composite(self, env, depth, in_loop) -> list:
+        """A local container is built, narrowed through a subscript path, partially re-assigned and read again
+        (composite variables `c[0]`, `c[0][0]`, `d['a']`; the container is local, so no alias is involved)."""
+        r = self.rng
+        e0, e1, e2 = self.expr(env, 1), self.expr(env, 1), self.expr(env, 1)
+        c = self.fresh("c")
+        form = r.choice(["list", "nested", "dict", "nested-dict"])
+        if form == "list":
+            init, leaf, parent = f"[{e0[0]}, {e1[0]}]", f"{c}[0]", None
+        elif form == "nested":
+            init, leaf, parent = f"[[{e0[0]}], {e1[0]}]", f"{c}[0][0]", f"{c}[0]"
+        elif form == "dict":
+            init, leaf, parent = "{" + f"'a': {e0[0]}, 'b': {e1[0]}" + "}", f"{c}['a']", None
+        else:
+            init, leaf, parent = "{" + f"'a': {{'b': {e0[0]}}}" + "}", f"{c}['a']['b']", f"{c}['a']"
+        test = r.choice([f"{leaf} is None", f"{leaf} is not None", f"isinstance({leaf}, int)", f"isinstance({leaf}, str)", f"{leaf}",
+                         f"not {leaf}", f"{leaf} == 1", f"isinstance({leaf}, (int, str))"])
+        self.note("stmt:composite-" + form)
+        lines = [f"{c} = {init}", f"use({leaf})", f"if {test}:", f"    use({leaf})"]
+        wrap = {"nested": lambda x: f"[{x}]", "nested-dict": lambda x: "{'b': " + x + "}"}
+        if parent is not None and r.random() < 0.7:
+            # re-assign the intermediate element: the narrowing of the leaf must not survive it
+            lines += [f"    {parent} = {wrap[form](e2[0])}", f"    use({leaf})"]
+            self.note("stmt:composite-reassign-parent")
+        elif r.random() < 0.6:
+            lines += [f"    {leaf} = {e2[0]}", f"    use({leaf})"]
+            self.note("stmt:composite-reassign-leaf")
+        else:
+            lines += [f"    {c} = {init.replace(e0[0], e2[0], 1)}", f"    use({leaf})"]
+            self.note("stmt:composite-reassign-root")
+        if r.random() < 0.5:
+            lines += ["else:", f"    use({leaf})"]
+        lines += [f"use({leaf})"]
+        env[c] = ty.ANY
+        return lines
 
     def unpack(self, env) -> list:
         r = self.rng
